@@ -127,6 +127,15 @@ theorem samplePointAt_shift (L : ShiftLaws F k) (cp : ControlPoints F) (t : F) :
     (shCP k cp).samplePointAt (t + k) = (cp.samplePointAt t).map (shSP k) :=
   lookupSaturating_map SamplePoint.key (shSP k) _ _ (fun x => L.key_lt x.time t) (fun x => L.key_eq x.time t) _
 
+/-- **lookup_shift**: all four lookups at once — the point selected at `t + k` in the shifted collection is the
+shift of the point selected at `t` (same index, same non-time fields; `none` exactly when `none`). -/
+theorem lookup_shift (L : ShiftLaws F k) (cp : ControlPoints F) (t : F) :
+    (shCP k cp).timingPointAt (t + k) = (cp.timingPointAt t).map (shTP k) ∧
+    (shCP k cp).difficultyPointAt (t + k) = (cp.difficultyPointAt t).map (shDP k) ∧
+    (shCP k cp).effectPointAt (t + k) = (cp.effectPointAt t).map (shEP k) ∧
+    (shCP k cp).samplePointAt (t + k) = (cp.samplePointAt t).map (shSP k) :=
+  ⟨timingPointAt_shift L cp t, difficultyPointAt_shift L cp t, effectPointAt_shift L cp t, samplePointAt_shift L cp t⟩
+
 /-! ### `ControlPoints::add` on a shifted collection -/
 
 theorem addTiming_shift (L : ShiftLaws F k) (cp : ControlPoints F) (p : TimingPoint F) :
